@@ -13,3 +13,5 @@ import Props.C17
 #print axioms C17.rtc_minimal_unchanged
 #print axioms C17.rtc_minimal_announce
 #print axioms C17.rtc_minimal_withdraw
+#print axioms C17.vrf_local_memberships
+#print axioms C17.vrf_delete_withdraws
